@@ -1,6 +1,9 @@
 (** C20 — Reward vesting releases min(reward, remaining) and conserves supply.
     Only statements here; proofs are in Proofs/Rvesting.v. *)
 From Teleport Require Import Base.Bytes Base.Outcome Model.Rvesting Model.RvestingCheck Proofs.Rvesting.
+From Teleport Require Import Model.RvestingIR Model.RvestingBank Model.RvestingParams Model.RvestingWorld Model.RvestingCode
+  Model.RvestingWorldCheck Proofs.RvestingBank Proofs.RvestingParams Proofs.RvestingWorld Proofs.RvestingRefine Proofs.RvestingCode
+  Proofs.RvestingMonitor.
 Local Open Scope Z_scope.
 
 (** Enabled, parameters accepted by validation, non-negative pool: BeginBlocker
@@ -54,6 +57,214 @@ Theorem C20_monitor_sound : forall p s s' ds,
 Proof. exact check_amounts_sound. Qed.
 Print Assumptions C20_monitor_sound.
 
+(** * Strengthened single-module statements (audit) *)
+
+(** The pool holds none of the reward denominations (in particular: the pool is empty): for validated
+    parameters, enabled or not, BeginBlocker returns THE SAME STATE. *)
+Theorem C20_empty_pool_state_equal : forall p s,
+  validate_rewards (rewards p) = true -> pool_ok s ->
+  (forall d, In d (map fst (rewards p)) -> get (pool s) d = 0) ->
+  begin_block p s = Ok s.
+Proof. exact begin_block_empty_noop. Qed.
+Print Assumptions C20_empty_pool_state_equal.
+
+(** EVERY block of EVERY history (any split bs1 ++ b :: bs2) is exact for the parameters in force at that
+    block: enabled => min(reward, pool) per denomination and nothing else, disabled => state equal. *)
+Theorem C20_every_block_exact : forall bs1 b bs2 p s,
+  params_ok p -> pool_ok s ->
+  exists p1 s1 s2, run bs1 p s = Ok (p1, s1) /\ params_ok p1 /\ pool_ok s1 /\
+    begin_block (apply_change p1 b) s1 = Ok s2 /\
+    (if enable (apply_change p1 b) then step_spec (apply_change p1 b) s1 s2 else s2 = s1) /\
+    run (bs1 ++ b :: bs2) p s = run bs2 (apply_change p1 b) s2.
+Proof. exact run_every_block_exact. Qed.
+Print Assumptions C20_every_block_exact.
+
+(** Closed form of the schedule, pool running dry included: after n blocks under constant enabled parameters
+    the pool holds max(0, pool - n * reward) of every denomination and the difference is in the fee collector. *)
+Theorem C20_schedule_closed_form : forall n p s,
+  enable p = true -> params_ok p -> pool_ok s ->
+  exists s', run (repeat noop_block n) p s = Ok (p, s') /\
+    (forall d, get (pool s') d = Z.max 0 (get (pool s) d - Z.of_nat n * reward_of (rewards p) d)) /\
+    (forall d, get (fee s') d = get (fee s) d + (get (pool s) d - get (pool s') d)) /\
+    others s' = others s /\ supply s' = supply s.
+Proof. exact run_closed_form. Qed.
+Print Assumptions C20_schedule_closed_form.
+
+(** A positive reward drains the pool of that denomination in finitely many blocks, everything ending in the
+    fee collector. *)
+Theorem C20_pool_drains : forall p s d,
+  enable p = true -> params_ok p -> pool_ok s -> 0 < reward_of (rewards p) d ->
+  exists n s', run (repeat noop_block n) p s = Ok (p, s') /\ get (pool s') d = 0 /\
+               get (fee s') d = get (fee s) d + get (pool s) d.
+Proof. exact pool_drains. Qed.
+Print Assumptions C20_pool_drains.
+
+(** * The source tree: terms regenerated by tools/gotocoq/rvesting (Gen/RvestingGen.v) *)
+
+(** Every decidable condition the theorems below rely on holds of the regenerated terms: guards of
+    validatePerBlockReward, ParamSetPairs, Params.validate, DefaultParams, ValidateGenesis, InitGenesis,
+    ExportGenesis, sender/recipient of SendVestedCoins = module account rvesting / the fee collector that
+    distribution sweeps, no Minter/Burner permission and a supply-neutral BankKeeper interface, BeginBlocker order
+    rvesting < distribution, InitGenesis order auth, bank < rvesting, pool not allowed to receive. *)
+Theorem C20_code_conditions : all_conditions code_ok = true.
+Proof. exact code_conditions_hold. Qed.
+Print Assumptions C20_code_conditions.
+
+(** validatePerBlockReward AS WRITTEN IN THE SOURCE (interpreted guard list) is [validate_rewards]; an absent
+    amount is rejected; it never panics. *)
+Theorem C20_validation_is_model : forall l,
+  code_validate l = Ok (match strip_coins l with Some r => validate_rewards r | None => false end).
+Proof. exact code_validate_total. Qed.
+Print Assumptions C20_validation_is_model.
+
+(** DefaultParams of the source pass validation and are what a fresh params store holds. *)
+Theorem C20_default_params_valid :
+  params_ok code_default_params /\ exists s, default_store = Ok s /\ code_get_params s = Ok code_default_params.
+Proof. exact code_default_ok. Qed.
+Print Assumptions C20_default_params_valid.
+
+(** * World level: all accounts, stored supply, params subspace; other modules act between blocks *)
+
+(** Every operation - BeginBlocker, whole block, parameter change on a registered key (accepted or rejected),
+    SendCoins / MintCoins / BurnCoins by anybody (accepted or rejected) - returns (no panic) and keeps:
+    sum of all balances = stored supply, no negative balance, validated parameters in the store.  Only mint and
+    burn change the supply. *)
+Theorem C20_world_step : forall op w,
+  code_inv w -> code_op_known op ->
+  exists w', code_step op w = Ok w' /\ code_inv w' /\ (is_mint_burn op = false -> w_sup w' = w_sup w).
+Proof. exact code_step_inv. Qed.
+Print Assumptions C20_world_step.
+
+Theorem C20_world_mint_burn_exact : forall op w w',
+  code_inv w -> code_step op w = Ok w' ->
+  match op with
+  | WMint _ l => w' = w \/ forall d, get (w_sup w') d = get (w_sup w) d + vtotal l d
+  | WBurn _ l => w' = w \/ forall d, get (w_sup w') d = get (w_sup w) d - vtotal l d
+  | _ => True
+  end.
+Proof. exact code_step_mint_burn. Qed.
+Print Assumptions C20_world_mint_burn_exact.
+
+(** Histories interleaving BeginBlockers / blocks with arbitrary bank operations of other modules and
+    parameter changes: never a panic, invariant kept, and without mint/burn the stored supply is unchanged. *)
+Theorem C20_world_history : forall ops w,
+  code_inv w -> Forall code_op_known ops ->
+  exists w', code_run ops w = Ok w' /\ code_inv w' /\
+    (forallb (fun op => negb (is_mint_burn op)) ops = true -> w_sup w' = w_sup w).
+Proof. exact code_run_inv. Qed.
+Print Assumptions C20_world_history.
+
+(** After ANY such history the next BeginBlocker returns and moves, for every denomination, exactly
+    [expected_move] (the monitor's min(reward, pool) / 0 when disabled) from the pool to the fee collector;
+    every other account, the supply, the params store and the height are untouched. *)
+Theorem C20_world_begin_exact : forall ops w w1 p,
+  code_inv w -> Forall code_op_known ops -> code_run ops w = Ok w1 -> code_get_params (w_ps w1) = Ok p ->
+  exists w2, code_step WBegin w1 = Ok w2 /\
+    (forall d, get (acct (w_accts w2) A_POOL) d =
+               get (acct (w_accts w1) A_POOL) d - expected_move p (get (acct (w_accts w1) A_POOL) d) d) /\
+    (forall d, get (acct (w_accts w2) A_FEE) d =
+               get (acct (w_accts w1) A_FEE) d + expected_move p (get (acct (w_accts w1) A_POOL) d) d) /\
+    (forall i, i <> A_POOL -> i <> A_FEE -> acct (w_accts w2) i = acct (w_accts w1) i) /\
+    w_sup w2 = w_sup w1 /\ w_ps w2 = w_ps w1 /\ w_height w2 = w_height w1.
+Proof. exact code_run_begin_exact_spec. Qed.
+Print Assumptions C20_world_begin_exact.
+
+(** A whole BeginBlock in app.go's module order (rvesting, then distribution whose AllocateTokens sweeps the
+    fee collector when height > 1): the pool loses exactly [expected_move]; at height > 1 the fee collector ends
+    empty and the distribution account gained (old fee collector balance + vested amount); supply unchanged. *)
+Theorem C20_block_exact : forall w p,
+  code_inv w -> code_get_params (w_ps w) = Ok p -> 0 <= w_height w ->
+  exists w', code_step WBlock w = Ok w' /\ code_inv w' /\
+    (forall d, get (acct (w_accts w') A_POOL) d =
+               get (acct (w_accts w) A_POOL) d - expected_move p (get (acct (w_accts w) A_POOL) d) d) /\
+    (w_height w = 0 ->
+       (forall d, get (acct (w_accts w') A_FEE) d =
+                  get (acct (w_accts w) A_FEE) d + expected_move p (get (acct (w_accts w) A_POOL) d) d) /\
+       acct (w_accts w') A_DISTR = acct (w_accts w) A_DISTR) /\
+    (0 < w_height w ->
+       (forall d, get (acct (w_accts w') A_FEE) d = 0) /\
+       (forall d, get (acct (w_accts w') A_DISTR) d =
+                  get (acct (w_accts w) A_DISTR) d + get (acct (w_accts w) A_FEE) d
+                  + expected_move p (get (acct (w_accts w) A_POOL) d) d)) /\
+    (forall i, i <> A_POOL -> i <> A_FEE -> i <> A_DISTR -> acct (w_accts w') i = acct (w_accts w) i) /\
+    w_sup w' = w_sup w /\ w_ps w' = w_ps w /\ w_height w' = w_height w + 1.
+Proof. exact code_block_exact. Qed.
+Print Assumptions C20_block_exact.
+
+(** Refinement between the layers: every single-module history of Model/Rvesting.v ([run]: the object of the
+    first group of theorems) IS the world history made of the corresponding params-subspace updates (under the
+    keys regenerated from the source) and BeginBlockers, projected on pool / fee collector / parameters. *)
+Theorem C20_refinement : forall bs w p s p' s',
+  code_agrees w p s -> run bs p s = Ok (p', s') ->
+  exists w', code_run (flat_map code_block_ops bs) w = Ok w' /\ code_agrees w' p' s'.
+Proof. exact code_run_refines. Qed.
+Print Assumptions C20_refinement.
+
+(** * Genesis (keeper.InitGenesis / ExportGenesis interpreted from the regenerated statement lists) *)
+
+(** A returning InitGenesis keeps sum of balances = supply, non-negative balances, and the supply itself. *)
+Theorem C20_genesis_conserves : forall g w w',
+  bank_ok (w_accts w) (w_sup w) -> code_init_genesis g w = Ok w' ->
+  bank_ok (w_accts w') (w_sup w') /\ w_sup w' = w_sup w /\ w_height w' = w_height w.
+Proof. exact code_init_conserves. Qed.
+Print Assumptions C20_genesis_conserves.
+
+(** The `from` account funding: exactly InitReward moves from it to the pool and nothing else changes. *)
+Theorem C20_genesis_funding : forall g i w w',
+  g_from g = FromAcct i -> i <> A_POOL -> code_init_genesis g w = Ok w' ->
+  (forall d, get (acct (w_accts w') A_POOL) d = get (acct (w_accts w) A_POOL) d + vtotal (g_init g) d) /\
+  (forall d, get (acct (w_accts w') i) d = get (acct (w_accts w) i) d - vtotal (g_init g) d) /\
+  (forall k, k <> A_POOL -> k <> i -> acct (w_accts w') k = acct (w_accts w) k).
+Proof. exact code_genesis_funding. Qed.
+Print Assumptions C20_genesis_funding.
+
+(** Round trip: whatever InitGenesis imported, the stored parameters are validated ones, ExportGenesis returns
+    the same parameters with From "" and no InitReward, that export passes ValidateGenesis, and importing it
+    again moves nothing, keeps the supply and exports the same state. *)
+Theorem C20_genesis_round_trip : forall g w w',
+  code_init_genesis g w = Ok w' ->
+  (exists r, g_rewards g = lift_coins r /\ validate_rewards r = true /\
+             code_get_params (w_ps w') = Ok {| enable := g_enable g; rewards := r |}) /\
+  code_export_genesis w' = Ok (plain_export g) /\
+  code_validate_genesis (plain_export g) = Ok true /\
+  exists w2, code_init_genesis (plain_export g) w' = Ok w2 /\
+             w_accts w2 = w_accts w' /\ w_sup w2 = w_sup w' /\ code_export_genesis w2 = Ok (plain_export g).
+Proof. exact code_genesis_round_trip. Qed.
+Print Assumptions C20_genesis_round_trip.
+
+(** A validated genesis state without From is always imported (no panic). *)
+Theorem C20_genesis_valid_no_from_total : forall g w,
+  g_from g = FromEmpty -> code_validate_genesis g = Ok true -> exists w', code_init_genesis g w = Ok w'.
+Proof. exact code_valid_genesis_total_no_from. Qed.
+Print Assumptions C20_genesis_valid_no_from_total.
+
+(** * World monitor soundness: the monitor evaluated on implementation traces accepts every BeginBlocker and
+    every whole block of the model. *)
+Theorem C20_world_monitor_sound_begin : forall ds p w w',
+  code_inv w -> code_inv w' -> params_ok p -> w_begin_spec p w w' ->
+  tick_ok false p ds (obs_of ds w) (obs_of ds w') = None.
+Proof. exact tick_sound_begin. Qed.
+Print Assumptions C20_world_monitor_sound_begin.
+
+Theorem C20_world_monitor_sound_block : forall ds p w,
+  code_inv w -> code_get_params (w_ps w) = Ok p -> params_ok p -> 0 <= w_height w ->
+  exists w', code_step WBlock w = Ok w' /\ tick_ok true p ds (obs_of ds w) (obs_of ds w') = None.
+Proof. exact tick_sound_block. Qed.
+Print Assumptions C20_world_monitor_sound_block.
+
+(** The genesis monitor accepts the observation of a model import + export + re-import (funding account =
+    tracked account 4, or no From). *)
+Theorem C20_genesis_monitor_sound : forall ds g w w',
+  bank_ok (w_accts w) (w_sup w) ->
+  (g_from g = FromEmpty \/ g_from g = FromAcct A_FROM) ->
+  code_init_genesis g w = Ok w' ->
+  exists r w2, g_rewards g = lift_coins r /\ code_init_genesis (plain_export g) w' = Ok w2 /\
+    g_mon_case {| gc_denoms := ds; gc_gen := g; gc_validate := 0; gc_before := obs_of ds w; gc_init := 0;
+                  gc_after := obs_of ds w'; gc_exported := Some (g_enable g, r); gc_exp_plain := true;
+                  gc_revalidate := 0; gc_reinit := 0; gc_after2 := Some (obs_of ds w2) |} = [].
+Proof. exact g_mon_sound. Qed.
+Print Assumptions C20_genesis_monitor_sound.
+
 (** Non-vacuity: a concrete state and parameter set meeting the hypotheses, a
     pool that runs dry over three blocks (7 -> 2 -> 0 -> 0 with reward 5). *)
 Example C20_nonvacuous :
@@ -64,6 +275,42 @@ Example C20_nonvacuous :
               {| set_enable := None; set_rewards := None |};
               {| set_enable := None; set_rewards := None |} ] p s with
   | Ok (_, s') => get (pool s') (B "atele") = 0 /\ get (fee s') (B "atele") = 7
+  | _ => False
+  end.
+Proof. vm_compute. repeat split; reflexivity. Qed.
+
+(** Non-vacuity at world level: a concrete world satisfying [code_inv] (built from the default store), a history
+    with a parameter change, a refill of the pool by another account, a mint and a burn by a third module and
+    three whole blocks; the result is computed. *)
+Definition ex_world : world :=
+  {| w_accts := [[(B "ufoo", 25)]; [(B "ufoo", 4)]; []; [(B "ufoo", 50)]];
+     w_sup := [(B "ufoo", 79)];
+     w_ps := match default_store with Ok s => s | _ => [] end;
+     w_height := 5 |}.
+
+Definition ex_ops : list wop :=
+  [WParam G.key_per_block_reward (JCoins [(B "ufoo", Some 10)]); WParam G.key_enable_vesting (JBool true);
+   WBlock; WBlock; WSend 3 0 [(B "ufoo", 7)]; WMint 3 [(B "ufoo", 5)]; WBurn 3 [(B "ufoo", 8)]; WBlock; WBlock].
+
+Example C20_world_nonvacuous :
+  code_get_params (w_ps ex_world) = Ok code_default_params /\
+  sumd (w_accts ex_world) (B "ufoo") = get (w_sup ex_world) (B "ufoo") /\
+  match code_run ex_ops ex_world with
+  | Ok w' => get (acct (w_accts w') A_POOL) (B "ufoo") = 0 /\ get (acct (w_accts w') A_FEE) (B "ufoo") = 0 /\
+             get (acct (w_accts w') A_DISTR) (B "ufoo") = 36 /\ get (w_sup w') (B "ufoo") = 76 /\
+             sumd (w_accts w') (B "ufoo") = 76 /\ w_height w' = 9
+  | _ => False
+  end.
+Proof. vm_compute. repeat split; reflexivity. Qed.
+
+(** Non-vacuity of the genesis theorems: a funded import that returns. *)
+Example C20_genesis_nonvacuous :
+  let g := {| g_enable := true; g_rewards := [(B "ufoo", Some 10); (B "atele", Some 3)]; g_from := FromAcct 3;
+              g_init := [(B "ufoo", 40)] |} in
+  code_validate_genesis g = Ok true /\
+  match code_init_genesis g ex_world with
+  | Ok w' => get (acct (w_accts w') A_POOL) (B "ufoo") = 65 /\ get (acct (w_accts w') 3) (B "ufoo") = 10 /\
+             code_export_genesis w' = Ok (plain_export g)
   | _ => False
   end.
 Proof. vm_compute. repeat split; reflexivity. Qed.
